@@ -24,6 +24,9 @@ pub enum Conn {
     Route,
     /// forward link into a single-replica block
     One,
+    /// shuffle, then route(): the routing block has a block input of its own, whose timed
+    /// receive expires while the source pauses
+    ShuffleRoute,
 }
 
 /// One step of a replica's script: sleep (ms of virtual time), then the element.
@@ -105,6 +108,11 @@ pub fn timed_job(
                     Conn::GroupBy => probe(s.group_by(|x: &i64| x % 2).0, PROBE).for_each(|_| {}),
                     Conn::Broadcast => probe(s.broadcast(), PROBE).for_each(|_| {}),
                     Conn::One => probe(s.replication(Replication::One), PROBE).for_each(|_| {}),
+                    Conn::ShuffleRoute => {
+                        let mut v = s.shuffle().route().add_route(|x: &i64| x % 3 == 0).add_route(|x: &i64| x % 3 == 1).build().into_iter();
+                        probe(v.next().unwrap(), PROBE).for_each(|_| {});
+                        probe(v.next().unwrap(), PROBE + 1).for_each(|_| {});
+                    }
                     Conn::Route => {
                         let mut v = s.route().add_route(|x: &i64| x % 3 == 0).add_route(|x: &i64| x % 3 == 1).build().into_iter();
                         probe(v.next().unwrap(), PROBE).for_each(|_| {});
@@ -184,19 +192,57 @@ pub fn grammar_oracle(conn: Conn, scripts: &[Vec<Step>], replicas: usize) -> Arc
         // conservation per probe id
         let want = |id: u32| -> Vec<i64> {
             let mut v: Vec<i64> = match conn {
-                Conn::Route => values.iter().copied().filter(|x| x.rem_euclid(3) == (id - PROBE) as i64).collect(),
+                Conn::Route | Conn::ShuffleRoute => values.iter().copied().filter(|x| x.rem_euclid(3) == (id - PROBE) as i64).collect(),
                 Conn::Broadcast => values.iter().flat_map(|x| std::iter::repeat(*x).take(replicas)).collect(),
                 _ => values.clone(),
             };
             v.sort();
             v
         };
-        let ids: Vec<u32> = if conn == Conn::Route { vec![PROBE, PROBE + 1] } else { vec![PROBE] };
+        let ids: Vec<u32> = if matches!(conn, Conn::Route | Conn::ShuffleRoute) { vec![PROBE, PROBE + 1] } else { vec![PROBE] };
         for id in ids {
             let mut got: Vec<i64> = seen.iter().filter(|((i, _), _)| *i == id).flat_map(|(_, s)| s.iter().filter(|x| x.0 <= 1).map(|x| *x.2.last().unwrap())).collect();
             got.sort();
             if got != want(id) {
                 return Err(Fail::new("c05-timed-data", format!("{d}: probe {id} saw data {:?}, expected {:?}", got, want(id))));
+            }
+        }
+        Ok(())
+    })
+}
+
+/// Control elements reach every replica of the connected block (C03) and the watermark keeps
+/// progressing there (C17): every downstream replica sees one end of iteration and one Terminate,
+/// and - when every source replica emits watermarks - the last watermark it sees before the end
+/// is at least the minimum over the source replicas of their last watermark.
+pub fn markers_oracle(sig: &'static str, scripts: &[Vec<Step>], replicas: usize, probes: usize) -> Arc<dyn Fn(&Seen, &str) -> Result<(), Fail> + Send + Sync> {
+    let lasts: Vec<Option<i64>> = (0..replicas)
+        .map(|r| scripts.get(r).and_then(|s| s.iter().filter_map(|(_, e)| if let StreamElement::Watermark(w) = e { Some(*w) } else { None }).last()))
+        .collect();
+    let expected: Option<i64> = if lasts.iter().all(|x| x.is_some()) { lasts.iter().map(|x| x.unwrap()).min() } else { None };
+    Arc::new(move |seen, d| {
+        let mut per_probe: BTreeMap<u32, usize> = BTreeMap::new();
+        for ((id, c), seq) in seen {
+            *per_probe.entry(*id).or_insert(0) += 1;
+            let fars = seq.iter().filter(|x| x.0 == K_FAR).count();
+            let terms = seq.iter().filter(|x| x.0 == K_TERM).count();
+            if fars != 1 || terms != 1 {
+                return Err(Fail::new(format!("{sig}-timed-markers"), format!("{d}: probe {id} on replica {:?} saw {fars} ends of iteration and {terms} Terminate", c)));
+            }
+            if let Some(exp) = expected {
+                let last = seq.iter().filter(|x| x.0 == crate::kit::K_WM).map(|x| x.1.unwrap()).last();
+                // (at least: once a source replica has ended, the minimum is taken over the others)
+                if !last.map(|l| l >= exp).unwrap_or(false) {
+                    return Err(Fail::new(
+                        format!("{sig}-timed-watermark-missing"),
+                        format!("{d}: probe {id} on replica {:?}: the last watermark seen before the end of the stream is {:?}, but every source replica got as far as {exp} (the minimum of their last watermarks); watermarks seen {:?}", c, last, seq.iter().filter(|x| x.0 == crate::kit::K_WM).map(|x| x.1.unwrap()).collect::<Vec<_>>()),
+                    ));
+                }
+            }
+        }
+        for (id, n) in per_probe {
+            if n != probes {
+                return Err(Fail::new(format!("{sig}-timed-replicas"), format!("{d}: probe {id} was reached on {n} replicas, {probes} expected")));
             }
         }
         Ok(())
@@ -222,13 +268,19 @@ pub fn scenarios(prefix: &str, quick: bool, which: &str) -> Vec<Scenario> {
     let layouts: Vec<(Layout, usize)> = if quick { vec![(Layout::Local(2), 1)] } else { vec![(Layout::Local(2), 2), (Layout::Local(3), 1), (Layout::Remote(vec![1, 1]), 1)] };
     for (layout, bound) in layouts {
         for sc in scripts() {
-            for conn in [Conn::Shuffle, Conn::GroupBy, Conn::Broadcast, Conn::Route, Conn::One] {
+            for conn in [Conn::Shuffle, Conn::GroupBy, Conn::Broadcast, Conn::Route, Conn::One, Conn::ShuffleRoute] {
                 for batch in [BatchMode::adaptive(1024, ms), BatchMode::adaptive(2, ms)] {
                     if quick && batch == BatchMode::adaptive(2, ms) && !matches!(conn, Conn::GroupBy | Conn::Route) {
                         continue;
                     }
                     let n = layout.total_cores() as usize;
-                    let (sig, oracle): (&'static str, _) = if which == "C05" { ("c05", grammar_oracle(conn, &sc, n)) } else { ("c06", safety_oracle()) };
+                    let down = if conn == Conn::One { 1 } else { n };
+                    let (sig, oracle): (&'static str, _) = match which {
+                        "C05" => ("c05", grammar_oracle(conn, &sc, n)),
+                        "C06" => ("c06", safety_oracle()),
+                        "C03" => ("c03", markers_oracle("c03", &sc, n, down)),
+                        _ => ("c17", markers_oracle("c17", &sc, n, down)),
+                    };
                     out.push(timed_job(prefix, sc.clone(), conn, layout.clone(), batch, bound, sig, oracle));
                 }
             }
